@@ -13,7 +13,7 @@ TRUSTED_BASE = [
     "that the code's critical sections and selects are the models' steps is tied (skeleton texts) and exercised on the real pool, not proved; context cancellation = a flag; panics other than the wait-group misuse are not modelled",
     "tie: skeleton texts of Send/lazySend/lazyResend/Run/run/exec/Stop/Sched/New; orchestrated and random runs on the real pool (hook points fl.beforeExit, ls.tryLockFailed)",
 ]
-ASSUMPTIONS = ["jobs terminate", "Go scheduler is fair"]
+ASSUMPTIONS = ["jobs terminate", "the Go scheduler keeps running a goroutine that can run (no fairness needed: C16_stop_returns, C16_every_action_progress)"]
 
 
 def correspond(ctx):
